@@ -660,6 +660,8 @@ class Twin:
                     "label": label_arg(oplabel),
                     "labelok": not (isinstance(oplabel, str) and ";" in oplabel),
                     "foreign": op.get("vols_present") in ("tuple", "ndarray"),
+                    "hascomps": op.get("comps") is not None and name == "evo_dispense",
+                    "comps": comps_log(op["comps"]) if op.get("comps") is not None and name == "evo_dispense" else [],
                 }
                 self._a_pending = a
                 wells = shape_wells(op["wells"], wp)
@@ -671,6 +673,8 @@ class Twin:
                 kw = {}
                 if "arm" in op:
                     kw["arm"] = self._num_arg(arm)
+                if a["hascomps"]:
+                    kw["compositions"] = comps_python(op["comps"])
                 f(lw, wells, (self._num_arg(grid), self._num_arg(site)), tips, vols, op.get("lc", "Water"), label=oplabel, **kw)
             elif name == "evo_wash":
                 g = op["args"]
